@@ -51,3 +51,185 @@ Theorem C15_splitlines_text :
     exists rs, splitlines f keepends = Ok rs /\ map text rs = str_splitlines keepends (text f).
 Proof. exact splitlines_text. Qed.
 Print Assumptions C15_splitlines_text.
+
+(* ... and the CELLS: every line is the sub-list of the per-character cells of f at its
+   offset (each character keeps its own formatting): [pieces_at l off gap lens] = the
+   sub-lists of l of lengths lens, the first at off, consecutive ones gap apart - the
+   newline between two lines without keepends, nothing with keepends; with keepends the
+   lines, concatenated, are cells f *)
+Theorem C15_splitlines_lines_keep_their_cells :
+  forall f keepends,
+    exists rs, splitlines f keepends = Ok rs /\
+      map text rs = str_splitlines keepends (text f) /\
+      map cells rs = pieces_at (cells f) 0 (if keepends then 0 else 1)
+                               (map (@length char) (str_splitlines keepends (text f))) /\
+      (keepends = true -> concat (map cells rs) = cells f).
+Proof. exact splitlines_cells. Qed.
+Print Assumptions C15_splitlines_lines_keep_their_cells.
+
+Example C15_splitlines_lines_keep_their_cells_nonvacuous :
+  let f := [C [97; 10]%N (A 2 0 0 0 0 0 0 0); C [98; 10; 10; 99]%N (A 0 3 1 0 0 0 0 0)] in
+  (exists rs, splitlines f true = Ok rs /\ length rs = 4 /\ concat (map cells rs) = cells f) /\
+  (exists rs, splitlines f false = Ok rs /\
+     map cells rs = [[(97, Sg 2 0 0 0 0 0 0 0)]; [(98, Sg 0 3 1 0 0 0 0 0)]; []; [(99, Sg 0 3 1 0 0 0 0 0)]]%N).
+Proof. split; eexists; vm_compute; repeat split. Qed.
+
+(* the reference itself: "".join(s.splitlines(True)) == s *)
+Theorem C15_reference_splitlines_keepends_concat :
+  forall s, concat (str_splitlines true s) = s.
+Proof. exact concat_str_splitlines_keepends. Qed.
+Print Assumptions C15_reference_splitlines_keepends_concat.
+
+(* ---- ljust / rjust ([just true] / [just false]) ------------------------------------------
+   [fill_char fill = Some fc]: no fillchar (fc = None) or a fillchar of exactly one
+   character (fc = Some c).  [just_scope]: the text handed to fmtstr() is one that
+   FmtStr.from_str does not parse (only the fillchar branch hands text of f to it).
+   [py_just left] = py_ljust / py_rjust of Spec/StrSpec.v = str.ljust / str.rjust. *)
+
+(* the text is str.ljust / str.rjust of the text, for every f with at least one run *)
+Theorem C15_just_text_is_str_just :
+  forall left f width fill fc, f <> [] -> fill_char fill = Some fc -> just_scope left f width fc ->
+    exists r, just left f width fill = Ok r /\ text r = py_just left (text f) width (fill_or_space fc).
+Proof. exact just_text. Qed.
+Print Assumptions C15_just_text_is_str_just.
+
+(* what the code does with the formatting, exactly ([just_cells], Proofs/StrMeth.v section 8,
+   on the cells of f and m = the formatting shared by all characters of f):
+     fillchar given                      characters and padding all carry exactly m
+     no fillchar, m has a background     characters untouched; padding = spaces with that
+                                         background and nothing else
+     no fillchar, no shared background   every character loses its background; padding = spaces with m *)
+Theorem C15_just_cells_three_branches :
+  forall left f width fill fc,
+    cells f <> [] -> fill_char fill = Some fc -> just_scope left f width fc ->
+    exists r, just left f width fill = Ok r /\
+      cells r = just_cells left (cells f) (meet_sgr (states (cells f))) width fc.
+Proof. exact just_cells_shared. Qed.
+Print Assumptions C15_just_cells_three_branches.
+
+(* "no formatting that no character had": the result is the original characters in order
+   with the padding after (ljust) / before (rjust) them; an original character shows at
+   most what it showed in f and at least what all characters of f show; a padding cell
+   shows only what EVERY character of f shows (same attribute, same value) *)
+Theorem C15_just_padding_within_shared_formatting :
+  forall left f width fill fc,
+    cells f <> [] -> fill_char fill = Some fc -> just_scope left f width fc ->
+    let m := meet_sgr (states (cells f)) in
+    let n := Z.to_nat (width - Z.of_nat (length (cells f))) in
+    exists r orig,
+      just left f width fill = Ok r /\
+      let pad := repeat (fill_or_space fc, padding_state m fc) n in
+      cells r = (if left then orig ++ pad else pad ++ orig) /\
+      Forall2 (fun o c => fst o = fst c /\ sgr_le (snd o) (snd c) = true /\ sgr_le m (snd o) = true)
+              orig (cells f) /\
+      (forall c, In c (cells f) -> sgr_le (padding_state m fc) (snd c) = true).
+Proof. exact just_no_new_formatting. Qed.
+Print Assumptions C15_just_padding_within_shared_formatting.
+
+Example C15_just_nonvacuous :
+  let f := [C [97]%N (A 2 3 1 0 0 0 0 0); C []%N (A 5 0 0 0 0 0 0 0); C [98]%N (A 2 3 0 0 0 0 0 0)] in
+  cells f <> [] /\ fill_char None = Some None /\ fill_char (Some [42%N]) = Some (Some 42%N) /\
+  just_scope true f 4 None /\ just_scope false f 3 (Some 42%N) /\
+  meet_sgr (states (cells f)) = Sg 2 3 0 0 0 0 0 0 /\
+  (exists r, ljust f 4 None = Ok r /\
+     cells r = [(97, Sg 2 3 1 0 0 0 0 0); (98, Sg 2 3 0 0 0 0 0 0); (32, Sg 0 3 0 0 0 0 0 0); (32, Sg 0 3 0 0 0 0 0 0)]%N) /\
+  (exists r, rjust f 3 (Some [42%N]) = Ok r /\
+     cells r = [(42, Sg 2 3 0 0 0 0 0 0); (97, Sg 2 3 0 0 0 0 0 0); (98, Sg 2 3 0 0 0 0 0 0)]%N).
+Proof. vm_compute. repeat split; try discriminate; eexists; split; reflexivity. Qed.
+
+(* the error branches: a fillchar that is not one character long is the builtin's TypeError
+   (raised before the runs are looked at); a FmtStr without runs is an IndexError (shared_atts) *)
+Theorem C15_just_bad_fillchar_is_TypeError :
+  forall left f width fc, fill_char (Some fc) = None -> just left f width (Some fc) = Raise TypeError.
+Proof. exact just_bad_fillchar. Qed.
+Print Assumptions C15_just_bad_fillchar_is_TypeError.
+
+Theorem C15_just_no_runs_is_IndexError :
+  forall left width fill fc, fill_char fill = Some fc -> just left [] width fill = Raise IndexError.
+Proof. exact just_no_runs. Qed.
+Print Assumptions C15_just_no_runs_is_IndexError.
+
+(* REFUTED (not claimed by the property, recorded): "the original characters keep their own
+   cells".  (on_red('a') + on_blue('b')).ljust(4) and even .ljust(1) return the characters
+   WITHOUT their backgrounds; with a fillchar every character is reduced to the shared formatting *)
+Example C15_just_keeps_own_cells_refuted :
+  let f := [C [97]%N (A 0 2 0 0 0 0 0 0); C [98]%N (A 0 5 0 0 0 0 0 0)] in
+  (exists r, ljust f 4 None = Ok r /\ firstn 2 (cells r) <> cells f /\
+             cells r = [(97, sgr_default); (98, sgr_default); (32, sgr_default); (32, sgr_default)]%N) /\
+  (exists r, ljust f 1 None = Ok r /\ cells r <> cells f) /\
+  (exists r, rjust [C [97]%N (A 2 0 1 0 0 0 0 0); C [98]%N (A 2 0 0 0 0 0 0 0)] 3 (Some [42%N]) = Ok r /\
+             cells r = [(42, Sg 2 0 0 0 0 0 0 0); (97, Sg 2 0 0 0 0 0 0 0); (98, Sg 2 0 0 0 0 0 0 0)]%N).
+Proof. exact just_keeps_own_cells_refuted. Qed.
+
+(* ---- the __getattr__ wrapper, for an ARBITRARY str method m ---------------------------------
+   m : the answer of getattr(f.s, att)( *args) as a function of f.s - a str, a list of strs,
+   anything else, or an exception.  [tagged st s] = every character of s with the state st.
+   Scope: answers that FmtStr.from_str does not parse ([has_esc_intro] false). *)
+
+(* a str answer: the same text; every character carries exactly the formatting shared by all
+   characters of f - which every character of f shows *)
+Theorem C15_delegated_str_result :
+  forall (X : Type) (m : str -> mres X) f s,
+    cells f <> [] -> m (text f) = MStr s -> has_esc_intro s = false ->
+    let sh := meet_sgr (states (cells f)) in
+    exists r, delegate m f = Ok (DFmt r) /\ text r = s /\ cells r = tagged sh s /\
+              (forall c, In c (cells f) -> sgr_le sh (snd c) = true).
+Proof. exact @delegate_str. Qed.
+Print Assumptions C15_delegated_str_result.
+
+(* a list-of-str answer: likewise, item by item *)
+Theorem C15_delegated_list_result :
+  forall (X : Type) (m : str -> mres X) f l,
+    cells f <> [] -> m (text f) = MList l -> Forall (fun s => has_esc_intro s = false) l ->
+    let sh := meet_sgr (states (cells f)) in
+    exists rs, delegate m f = Ok (DList rs) /\ map text rs = l /\ map cells rs = map (tagged sh) l /\
+               (forall c, In c (cells f) -> sgr_le sh (snd c) = true).
+Proof. exact @delegate_list. Qed.
+Print Assumptions C15_delegated_list_result.
+
+(* runs but no character: the attributes are whatever shared_atts answers (those of the first run) *)
+Theorem C15_delegated_str_result_any_runs :
+  forall (X : Type) (m : str -> mres X) f s sh,
+    m (text f) = MStr s -> shared_atts f = Ok sh -> has_esc_intro s = false ->
+    exists r, delegate m f = Ok (DFmt r) /\ text r = s /\ cells r = tagged (eff sh) s.
+Proof. exact @delegate_str_exact. Qed.
+Print Assumptions C15_delegated_str_result_any_runs.
+
+(* a non-text answer is passed through unchanged, an exception propagates *)
+Theorem C15_delegated_plain_result :
+  forall (X : Type) (m : str -> mres X) f x, m (text f) = MOther x -> delegate m f = Ok (DOther x).
+Proof. exact @delegate_other. Qed.
+Print Assumptions C15_delegated_plain_result.
+
+Theorem C15_delegated_exception :
+  forall (X : Type) (m : str -> mres X) f e, m (text f) = MRaise e -> delegate m f = Raise e.
+Proof. exact @delegate_raise. Qed.
+Print Assumptions C15_delegated_exception.
+
+(* a FmtStr without runs: IndexError (self.chunks[0] in shared_atts) as soon as a piece of
+   text has to be wrapped; an empty list is returned as it is *)
+Theorem C15_delegated_no_runs :
+  forall (X : Type) (m : str -> mres X),
+    (forall s, m [] = MStr s -> delegate m [] = Raise IndexError) /\
+    (forall s l, m [] = MList (s :: l) -> delegate m [] = Raise IndexError) /\
+    (m [] = MList [] -> delegate m [] = Ok (DList [])).
+Proof. exact @delegate_no_runs. Qed.
+Print Assumptions C15_delegated_no_runs.
+
+Example C15_delegated_nonvacuous :
+  let f := [C [97]%N (A 2 0 1 0 0 0 0 0); C [98; 44; 99]%N (A 2 0 0 0 0 0 0 0)] in
+  let upper : str -> mres unit := fun s => MStr (map (fun c => if (N.leb 97 c && N.leb c 122)%bool then (c - 32)%N else c) s) in
+  let pieces : str -> mres unit := fun s => MList (str_split s [44%N]) in
+  cells f <> [] /\ meet_sgr (states (cells f)) = Sg 2 0 0 0 0 0 0 0 /\
+  (exists r, delegate upper f = Ok (DFmt r) /\
+     cells r = [(65, Sg 2 0 0 0 0 0 0 0); (66, Sg 2 0 0 0 0 0 0 0); (44, Sg 2 0 0 0 0 0 0 0); (67, Sg 2 0 0 0 0 0 0 0)]%N) /\
+  (exists rs, delegate pieces f = Ok (DList rs) /\
+     map cells rs = [[(97, Sg 2 0 0 0 0 0 0 0); (98, Sg 2 0 0 0 0 0 0 0)]; [(99, Sg 2 0 0 0 0 0 0 0)]]%N).
+Proof. exact delegate_nonvacuous. Qed.
+
+(* ---- what the code rejects --------------------------------------------------------------------- *)
+(* split with a maxsplit argument: NotImplementedError("no maxsplit yet"), whatever the separator *)
+Theorem C15_split_maxsplit_is_rejected :
+  forall is_space f sep k, split is_space f sep (Some k) = Raise NotImplementedError.
+Proof. exact split_maxsplit. Qed.
+Print Assumptions C15_split_maxsplit_is_rejected.
